@@ -105,6 +105,8 @@ class UnitInference:
     def infer_kinds(self) -> None:
         for _ in range(4):
             for n in ast.walk(self.fn.node):
+                if isinstance(n, (ast.For, ast.comprehension)):
+                    self.bind_iter(n.target, n.iter)
                 if isinstance(n, ast.Assign) and len(n.targets) == 1 and isinstance(n.targets[0], ast.Name):
                     kk = self.k(n.value)
                     if kk:
@@ -265,6 +267,9 @@ class UnitInference:
                 self.u(i)
 
     def bind_iter(self, target: ast.AST, it: ast.AST) -> None:
+        if isinstance(it, ast.Call) and isinstance(it.func, ast.Attribute) and it.func.attr == "finditer" and isinstance(target, ast.Name):
+            if any(self.k(a) == "TEXT" for a in it.args):
+                self.kind[target.id] = "MATCH"
         if isinstance(it, ast.Call) and isinstance(it.func, ast.Name):
             if it.func.id == "enumerate" and it.args and self.k(it.args[0]) == "TEXT" and isinstance(target, ast.Tuple) and target.elts and isinstance(target.elts[0], ast.Name):
                 self.uf.set("v:" + target.elts[0].id, "CP", f"index of `enumerate({src(it.args[0])})` (code points)", it)
